@@ -17,11 +17,12 @@
 #include <netinet/in.h>
 #include <arpa/inet.h>
 #include <poll.h>
+#include <signal.h>
 
 using namespace asl;
 
-enum Ev { ACCEPTED, SERVE_ENTER, SERVE_EXIT, STOP_CALLED, STOP_RETURNED, DESTROYED, CLIENT_CONNECTED, CLIENT_ECHO, CLIENT_EOF, CLIENT_NOEOF, CLIENT_FAIL, ASYNC_STOP_LOOP_ENDED };
-static const char* EVN[] = {"accepted", "serve_enter", "serve_exit", "stop_called", "stop_returned", "destroyed", "client_connected", "client_echo", "client_eof", "client_no_eof", "client_fail", "async_stop_waited"};
+enum Ev { ACCEPTED, SERVE_ENTER, SERVE_EXIT, STOP_CALLED, STOP_RETURNED, DESTROYED, CLIENT_CONNECTED, CLIENT_ECHO, CLIENT_EOF, CLIENT_NOEOF, CLIENT_FAIL, ASYNC_STOP_LOOP_ENDED, CLIENT_NOECHO, SIGNAL_SENT };
+static const char* EVN[] = {"accepted", "serve_enter", "serve_exit", "stop_called", "stop_returned", "destroyed", "client_connected", "client_echo", "client_eof", "client_no_eof", "client_fail", "async_stop_waited", "client_no_echo", "signal_to_accept_thread"};
 
 struct Event { Ev e; std::string token; int fd; double t; };
 
@@ -163,6 +164,7 @@ static void clientThread(bool unixSock, int port, std::string path, std::string 
 	if (behaviour == 2) { close(fd); return; }                       // closes before reading the reply
 	std::string line;
 	int r = readLineTimeout(fd, line, 30000);
+	if (r == -2) g_log->add(CLIENT_NOECHO, token, fd);
 	if (r == 1 && line == "echo:" + token) {
 		g_log->add(CLIENT_ECHO, token, fd);
 		std::string rest;
@@ -171,6 +173,8 @@ static void clientThread(bool unixSock, int port, std::string path, std::string 
 	}
 	close(fd);
 }
+
+static bool fd0Unix(bool) { return false; }
 
 static void mode_hist(vf::Ctx& c)
 {
@@ -197,10 +201,17 @@ static void mode_hist(vf::Ctx& c)
 	// descriptor 0: the process runs with stdin closed and the first accepted connection gets descriptor number 0
 	bool fd0 = !twoStep && !longServe && c.idx % 16 == 3;
 	if (fd0 && N == 0) N = 1;
+	// two endpoints: the server listens on a TCP port and on a Unix path; in half of these histories only one of them gets traffic
+	bool twoEp = !twoStep && !longServe && !fd0 && c.idx % 16 == 13;
+	bool twoEpOnlyTcp = twoEp && c.rng.chance(0.5);
+	if (twoEp) { unixSock = false; if (N == 0) N = 3; }
+	// signals: the thread running the accept loop (blocking start() in an application thread) handles two signals while idle
+	bool sig = !twoStep && !longServe && !fd0 && !twoEp && c.idx % 16 == 11;
+	if (sig) { blockingStart = true; stopWhen = 2; if (N > 20) N = 20; }
 	std::string path = c.opt->out + vf::fmt("/s%llu.sock", (unsigned long long)c.idx);
 	unlink(path.c_str());
 	c.desc(vf::fmt("%s %s%s%s, %d clients, stop %s%s, jitter %d", unixSock ? "unix" : "tcp", sequential ? "sequential" : "concurrent", blockingStart ? ", start() in its own thread" : "",
-	               keepCopies ? ", serve() keeps a copy of each socket" : "", N, twoStep ? "asynchronously, then again synchronously once the accept loop has ended; first " : longServe ? "while a serve() call of 5.5-7 s is in flight, " : fd0 ? "(stdin closed: first connection accepted on descriptor 0) " : "", stopWhen == 0 ? "early" : stopWhen == 1 ? "mid-burst" : "after all", jm));
+	               keepCopies ? ", serve() keeps a copy of each socket" : "", N, twoStep ? "asynchronously, then again synchronously once the accept loop has ended; first " : longServe ? "while a serve() call of 5.5-7 s is in flight, " : fd0 ? "(stdin closed: first connection accepted on descriptor 0) " : twoEp ? (twoEpOnlyTcp ? "(server also listens on a Unix path that gets no traffic) " : "(server listens on TCP and on a Unix path, clients use both) ") : sig ? "(two signals handled by the accept thread before the stop) " : "", stopWhen == 0 ? "early" : stopWhen == 1 ? "mid-burst" : "after all", jm));
 	Log log;
 	g_log = &log;
 	g_badSocketInServe = 0;
@@ -217,6 +228,7 @@ static void mode_hist(vf::Ctx& c)
 	srv->setSequential(sequential);
 	srv->keepCopies = keepCopies;
 	bool bound = unixSock ? srv->bindPath(path.c_str()) : srv->bind("127.0.0.1", 0);
+	if (bound && twoEp) bound = srv->bindPath(path.c_str());
 	if (!bound) { delete srv; g_log = 0; sched::off(); c.inconclusive("bind-failed"); return; }
 	int port = unixSock ? 0 : srv->port();
 	std::vector<std::thread> clients;
@@ -228,7 +240,8 @@ static void mode_hist(vf::Ctx& c)
 			tokens.push_back(tok);
 			int beh = fd0 && launched == 0 ? 0 : c.rng.chance(0.75) ? 0 : c.rng.range(1, 2);
 			int delay = fd0 && launched == 0 ? 0 : c.rng.chance(0.5) ? 0 : c.rng.range(0, 30000);
-			clients.emplace_back(clientThread, unixSock, port, path, tok, beh, delay);
+			bool viaUnix = twoEp ? (!twoEpOnlyTcp && c.rng.chance(0.5)) : unixSock;
+			clients.emplace_back(clientThread, viaUnix, port, path, tok, beh, delay);
 			if ((int)clients.size() >= nClientThreadsMax && c.rng.chance(0.3)) { struct timespec ts = {0, 1000000}; nanosleep(&ts, 0); }
 		}
 	};
@@ -264,6 +277,14 @@ static void mode_hist(vf::Ctx& c)
 	}
 	else { launch(N); for (auto& t : clients) t.join(); clients.clear(); }
 
+	if (sig && starter.joinable()) {
+		for (int k = 0; k < 2; k++) {
+			log.add(SIGNAL_SENT);
+			pthread_kill(starter.native_handle(), SIGUSR2);
+			struct timespec ts = {0, 60000000}; nanosleep(&ts, 0);
+		}
+		c.count("signals_sent_to_the_accept_thread", 2);
+	}
 	std::thread late;
 	log.add(STOP_CALLED);
 	if (twoStep) {
@@ -340,6 +361,14 @@ static void mode_hist(vf::Ctx& c)
 		}
 	}
 	if (runningAfter) c.fail("running-true-after-stop-returned", log.str());
+	// bounded progress: a client that connected and sent its token while no stop had been requested gets its echo within 30 s
+	{
+		long stopCalledAt = -1, firstSignal = -1;
+		for (size_t i = 0; i < ev.size(); i++) { if (ev[i].e == STOP_CALLED && stopCalledAt < 0) stopCalledAt = (long)i; if (ev[i].e == SIGNAL_SENT && firstSignal < 0) firstSignal = (long)i; }
+		for (size_t i = 0; i < ev.size(); i++)
+			if (ev[i].e == CLIENT_NOECHO && (stopCalledAt < 0 || (long)i < stopCalledAt) && (firstSignal < 0 || (long)i < firstSignal) && !fd0Unix(unixSock))
+				c.fail("connected-client-not-served-within-30s", "token " + ev[i].token + " | " + log.str());
+	}
 	if (accepted != enters || enters != exits) c.fail("conservation.accepted-entered-exited", vf::fmt("accepted %d, serve entered %d, serve returned %d | ", accepted, enters, exits) + log.str());
 	for (auto& kv : served) if (kv.second != 1) c.fail("connection-served-more-than-once", kv.first + vf::fmt(" served %d times | ", kv.second) + log.str());
 	for (auto& kv : served) if (kv.first[0] == 'P') c.fail("serve-started-after-stop-returned", "post-stop client " + kv.first + " was served");
@@ -360,6 +389,7 @@ static void mode_hist(vf::Ctx& c)
 
 int main(int argc, char** argv)
 {
+	{ struct sigaction sa; memset(&sa, 0, sizeof sa); sa.sa_handler = [](int) {}; sigemptyset(&sa.sa_mask); sa.sa_flags = 0; sigaction(SIGUSR2, &sa, 0); }   // no SA_RESTART: interrupts select()/accept()
 	vf::Runner R;
 	sched::extra_hook = c14_hook;
 	R.add("hist", mode_hist, "start / clients / stop(true) / destroy histories");
